@@ -10,7 +10,7 @@ cp $wt/seed_out/patch.diff $out/patch.diff
 cp $wt/seed_out/demo.py $out/demo.py
 cp $wt/seed_out/notes.md $out/notes.md 2>/dev/null
 cd $wt
-git stash -q 2>/dev/null; git checkout -q -- . 2>/dev/null
+git checkout -q -- wheatley 2>/dev/null   # (no `git stash`: the stash is shared by all worktrees of /repo)
 echo "--- demo on original"; (timeout 120 /venv/bin/python seed_out/demo.py >/tmp/seed_demo_orig.txt 2>&1; echo "exit=$?") | tee /tmp/seed_orig_exit
 git apply $out/patch.diff || { echo "PATCH DOES NOT APPLY in worktree"; }
 echo "--- demo with change"; (timeout 120 /venv/bin/python seed_out/demo.py >/tmp/seed_demo_mut.txt 2>&1; echo "exit=$?") | tee /tmp/seed_mut_exit
